@@ -437,6 +437,7 @@ type Contract struct {
 	Decreases *Expr
 	Notes    []string
 	Uses     []*Expr
+	Implements []string
 }
 
 type SpecFunc struct {
@@ -446,6 +447,7 @@ type SpecFunc struct {
 	Ret    string
 	Body   *Expr
 	Uninterp bool
+	ReadsM bool // ghost function of the raw memory (M and the slice-header shadows) as well
 }
 
 type Lemma struct {
@@ -460,7 +462,12 @@ type Lemma struct {
 type TypeAttr struct {
 	TypeKey string // e.g. "IntCodec[int32]" or "*arrayCodec"
 	Pkg     string
-	Attrs   map[string]*Expr // attr -> expr over receiver "this"
+	Attrs   map[string]*AttrDef // attr -> definition over receiver "this" (and extra params)
+}
+
+type AttrDef struct {
+	Params []string
+	Body   *Expr
 }
 
 type GlobalFact struct {
@@ -593,28 +600,55 @@ func (sp *Specs) LoadSpecLines(lines []string, pkg, file string, external bool) 
 			sp.Globals = append(sp.Globals, &GlobalFact{Pkg: pkg, E: e, Text: rest})
 			cur = nil
 		case "type":
-			// type KEY : attr = expr ; attr = expr
+			// type KEY [for T in a,b] : attr = expr ; attr(params) = expr
 			i := strings.Index(rest, ":")
 			if i < 0 {
 				return fail(fmt.Errorf("type needs ':'"))
 			}
-			ta := &TypeAttr{TypeKey: strings.TrimSpace(rest[:i]), Pkg: pkg, Attrs: map[string]*Expr{}}
-			for _, part := range strings.Split(rest[i+1:], ";") {
-				part = strings.TrimSpace(part)
-				if part == "" {
-					continue
+			head := strings.TrimSpace(rest[:i])
+			insts := []string{""}
+			tv := ""
+			if k := strings.Index(head, " for "); k >= 0 {
+				f := strings.Fields(head[k+5:])
+				if len(f) < 3 || f[1] != "in" {
+					return fail(fmt.Errorf("bad 'for T in ...'"))
 				}
-				j := strings.Index(part, "=")
-				if j < 0 {
-					return fail(fmt.Errorf("bad attr %q", part))
-				}
-				e, err := ParseExpr(strings.TrimSpace(part[j+1:]))
-				if err != nil {
-					return fail(err)
-				}
-				ta.Attrs[strings.TrimSpace(part[:j])] = e
+				tv = f[0]
+				insts = strings.Split(strings.Join(f[2:], ""), ",")
+				head = strings.TrimSpace(head[:k])
 			}
-			sp.TypeAttrs = append(sp.TypeAttrs, ta)
+			for _, in := range insts {
+				key, body := head, rest[i+1:]
+				if tv != "" {
+					key = strings.ReplaceAll(key, "["+tv+"]", "["+in+"]")
+					body = substTypeVar(body, tv, in)
+				}
+				ta := &TypeAttr{TypeKey: key, Pkg: pkg, Attrs: map[string]*AttrDef{}}
+				for _, part := range splitTop(body, ';') {
+					part = strings.TrimSpace(part)
+					if part == "" {
+						continue
+					}
+					j := strings.Index(part, "=")
+					if j < 0 {
+						return fail(fmt.Errorf("bad attr %q", part))
+					}
+					e, err := ParseExpr(strings.TrimSpace(part[j+1:]))
+					if err != nil {
+						return fail(err)
+					}
+					hd := strings.TrimSpace(part[:j])
+					ad := &AttrDef{Body: e}
+					if k := strings.Index(hd, "("); k >= 0 {
+						for _, pn := range strings.Split(strings.TrimSuffix(hd[k+1:], ")"), ",") {
+							ad.Params = append(ad.Params, strings.TrimSpace(pn))
+						}
+						hd = strings.TrimSpace(hd[:k])
+					}
+					ta.Attrs[hd] = ad
+				}
+				sp.TypeAttrs = append(sp.TypeAttrs, ta)
+			}
 			cur = nil
 		case "func", "iface":
 			// func KEY [for T in a,b,c]
@@ -634,7 +668,11 @@ func (sp *Specs) LoadSpecLines(lines []string, pkg, file string, external bool) 
 			mk := func(k string) *Contract {
 				c := &Contract{Key: k, Pkg: pkg, File: file, Loops: map[int]*LoopSpec{}, External: external, Props: map[string]bool{}}
 				if word == "iface" {
-					sp.Ifaces[k] = c
+					ik := k
+					if pkg != "" && !strings.Contains(k, "/") && !strings.HasPrefix(k, "funcval ") {
+						ik = pkg + "." + k
+					}
+					sp.Ifaces[ik] = c
 				} else {
 					full := k
 					if pkg != "" {
@@ -729,6 +767,10 @@ func (c *Contract) addClause(word, rest string) error {
 			return fmt.Errorf("uses expects AXIOM(args)")
 		}
 		c.Uses = append(c.Uses, e)
+	case "implements":
+		for _, t := range strings.Split(rest, ",") {
+			c.Implements = append(c.Implements, strings.TrimSpace(t))
+		}
 	case "props":
 		for _, t := range strings.Split(rest, ",") {
 			c.Props[strings.TrimSpace(t)] = true
@@ -865,6 +907,10 @@ func parseSpecFunc(rest string, ghost bool) (*SpecFunc, error) {
 	k := strings.Index(tail, "=")
 	if k < 0 {
 		sf.Ret = strings.TrimSpace(tail)
+		if strings.HasSuffix(sf.Ret, " reads M") {
+			sf.Ret = strings.TrimSpace(strings.TrimSuffix(sf.Ret, " reads M"))
+			sf.ReadsM = true
+		}
 		sf.Uninterp = true
 		return sf, nil
 	}
